@@ -48,7 +48,14 @@ def parser_tie(res, seed, n, dist):
         types.append((f"P{i}", t, ok)); dist['parse_in_grammar' if ok else 'parse_outside_grammar'] = dist.get('parse_in_grammar' if ok else 'parse_outside_grammar', 0) + 1
     crate = os.path.join(WORK, 'pdtest')
     put(os.path.join(crate, 'Cargo.toml'), '[package]\nname = "pdtest"\nversion = "0.0.0"\nedition = "2021"\n[workspace]\n[dependencies]\npd = { path = "/verif/harness/pd" }\n')
-    src = "#![allow(dead_code)]\nuse pd::DumpParse;\n" + ''.join(f"#[derive(DumpParse)]\npub struct {n_}<'a, T, U, const N: usize> {{ f: {t} }}\n" for n_, t, _ in types)
+    # whole items: attributes, visibility, generic parameter lists with bounds / defaults / where clauses, named / tuple / unit bodies
+    rng2 = random.Random(seed + 77)
+    items = []
+    for i in range(max(40, n // 2)):
+        isrc, iok = D.gen_item(rng2, i)
+        items.append((f"I{i}", isrc, iok)); k = 'item_in_grammar' if iok else 'item_outside_grammar'; dist[k] = dist.get(k, 0) + 1
+    src = ("#![allow(dead_code)]\nuse pd::DumpParse;\n" + ''.join(f"#[derive(DumpParse)]\npub struct {n_}<'a, T, U, const N: usize> {{ f: {t} }}\n" for n_, t, _ in types)
+           + ''.join(f"#[derive(DumpParse)]\n{isrc}\n" for _, isrc, _ in items))
     put(os.path.join(crate, 'src', 'lib.rs'), src)
     dump = os.path.join(WORK, 'pd.dump')
     if os.path.exists(dump): os.remove(dump)
@@ -106,9 +113,39 @@ def parser_tie(res, seed, n, dist):
                 nd += 1
                 if nd == 1:
                     res.add_broken('correspondence', 'Coq model of the type printer (Type::full) differs from derive/src/parse.rs', f"type `{t}`: model {mp[:200]} | impl {ip[:200]}")
+    # whole items: parse_data of /repo vs the extracted model of coq/parse/ParseDecl.v; a supported item must not make the parser panic
+    impl_item, model_item = {}, {}
+    for l in open(dump):
+        m = re.match(r'ITEM (\S+) PARSED (.*)', l.strip())
+        if m: impl_item[m.group(1)] = m.group(2).strip()
+    if drv:
+        for l in lines:
+            m = re.match(r'ITEM (\S+) PARSED (.*)', l)
+            if m: model_item[m.group(1)] = m.group(2).strip()
+    okflag = {n_: ok for n_, _, ok in types}; okflag.update({n_: ok for n_, _, ok in items})
+    srcof = {n_: f"struct {n_}<'a, T, U, const N: usize> {{ f: {t} }}" for n_, t, _ in types}; srcof.update({n_: isrc for n_, isrc, _ in items})
+    nit = 0
+    for name, ii in impl_item.items():
+        if name not in okflag: continue
+        ok = okflag[name]
+        if ok and ii == 'PANIC':
+            sig = 'parser panic on a supported item'
+            if name.startswith('P'): continue          # reported by the field-type oracle above
+            res.oracle_fail.append({'group': 'item', 'case': srcof[name], 'what': f"ORACLE-FAIL the declaration parser panics on a supported declaration: {srcof[name][:300]}", 'signature': sig})
+        mi = model_item.get(name)
+        if not drv or mi is None: continue
+        nit += 1
+        iu = 'UNSUP' if ('UnsupCat' in ii or ' as)' in ii or ii == 'ENUM') else ii
+        if mi != iu and not (mi in ('UNSUP', 'PANIC') and iu in ('UNSUP', 'PANIC') and not ok):
+            nd += 1
+            if nd == 1:
+                k = next((j for j in range(min(len(mi), len(iu))) if mi[j] != iu[j]), 0)
+                res.add_broken('correspondence', 'Coq model of the declaration parser (parse_data) differs from derive/src/parse.rs',
+                               f"item `{srcof[name][:300]}`: model ...{mi[max(0, k - 60):k + 120]} | impl ...{iu[max(0, k - 60):k + 120]}")
+    res.coverage['items_compared'] = nit
     res.coverage['printer_types_compared'] = npr
     res.coverage['parser_types_compared'] = len([1 for n_, _, _ in types if n_ in impl and n_ in model])
-    return len(types)
+    return len(types) + len(items)
 
 def main():
     a = std_args()
